@@ -429,7 +429,10 @@ where
 			None => 0,
 		};
 		let keychain = wallet.keychain(keychain_mask)?;
-		let parent_key_id = wallet.parent_key_id();
+		// the sender's proof address was derived from the account the transaction was
+		// initiated from, which is the account of its log entry (not necessarily the
+		// account that is active now)
+		let parent_key_id = parent_key.clone();
 		let excess = slate.calc_excess(keychain.secp())?;
 		let sender_key =
 			address::address_from_derivation_path(&keychain, &parent_key_id, derivation_index)?;
